@@ -320,6 +320,45 @@ class X86Model(object):
             self.internal.add(path[:plen])
         self.cells[path] = Cell(path, name, modifs, row, opc)
 
+    def addop_cells(self, row):
+        """x86allmncs.addop interpreted from its source on one row with an empty table: {path: (name, {modifier: value}, opcode bytes)}."""
+        from .consteval import class_obj, Native, PyRaise
+        import copy as _copy
+        log = Obj('log')
+        for k_ in ('debug', 'error', 'info', 'warning', 'warn'):
+            setattr(log, k_, Native(lambda *a: None))
+
+        def mk_mnemonic(name, opc, afs, rm, modifs, modifs_orig, sem):
+            o = Obj('mnemonic')
+            o.name, o.opc, o.afs, o.rm, o.modifs, o.modifs_orig, o.sem = name, list(opc), afs, rm, dict(modifs), modifs_orig, sem
+            return o
+        scope = dict(self.env)
+        for fname_, fnode_ in self.arch.funcs.items():
+            scope.setdefault(fname_, fnode_)
+        scope.update({'log': log, 'mnemonic': Native(mk_mnemonic), 'x86_afs': self.afs})
+        me = class_obj(self.arch, 'x86allmncs', 'self')
+        me.db_mnemo = [None for _ in range(0x100)]
+        me.mnemo_lookup = {}
+        addop = self.arch.method('x86allmncs', 'addop')
+        try:
+            Evaluator(scope).call_user(addop, [me, row.name, list(row.opc), row.afs, list(row.rm), _copy.deepcopy(row.modif_desc), dict(row.prop), dict(row.sem)])
+        except PyRaise as e:
+            raise AnalysisError('addop, interpreted on the row %s alone, raises %s' % (row.key(), e.exc_name))
+        except NotConst as e:
+            raise AnalysisError('x86allmncs.addop is outside the statically evaluable subset (row %s): %s' % (row.key(), e))
+        got = {}
+
+        def walk(tab, path):
+            for i, x in enumerate(tab):
+                if x is None:
+                    continue
+                if isinstance(x, list):
+                    walk(x, path + (i,))
+                else:
+                    got[path + (i,)] = (x.name, dict(x.modifs), tuple(x.opc))
+        walk(me.db_mnemo, ())
+        return got
+
     # -- the mirror above against addop itself
     def _validate_mirror(self):
         """x86allmncs.addop is interpreted from its source on probe rows (one per combination of afs kind, modifier set and opcode length that the table uses) with an empty table;
@@ -343,7 +382,7 @@ class X86Model(object):
         probes, seen = [], set()
         for row in self.rows:
             kind = 'digit' if isinstance(row.afs, int) else row.afs
-            k = (kind, tuple(sorted(str(x) for x in row.modif_desc)), len(row.opc), row.name == 'finit')
+            k = (kind, tuple(sorted(str(x) for x in row.modif_desc)), len(row.opc), row.name == 'finit', tuple(sorted(str(x) for x in row.prop)), tuple(sorted(str(x) for x in row.sem)))
             if k not in seen:
                 seen.add(k)
                 probes.append(row)
@@ -377,6 +416,16 @@ class X86Model(object):
                     path, name, nm, opc, check = payload
                     want[path] = (name, tuple(sorted((str(a), str(b)) for a, b in nm.items() if b is not None)), tuple(opc))
                     names.add(name)
+            flow_names = set(str(E[k_]) for k_ in ('bkf', 'spf', 'dtf') if k_ in E)
+
+            def noflow(d_):
+                return dict((p_, (v_[0], tuple(x_ for x_ in v_[1] if x_[0] not in flow_names), v_[2])) for p_, v_ in d_.items())
+            if got != want and noflow(got) == noflow(want) and set(me.mnemo_lookup.keys()) == names:
+                # addop and the model differ only in the control-flow attributes of some cell: not a reason to stop - C17.D9 interprets addop itself on every row that declares
+                # such an attribute and reports the cell
+                self.__dict__.setdefault('mirror_flow_mismatch', []).append(row.key())
+                n_cells += len(got)
+                continue
             if got != want or set(me.mnemo_lookup.keys()) != names:
                 diff = sorted(set(got.items()) ^ set(want.items()))[:2]
                 raise AnalysisError('the table model no longer mirrors x86allmncs.addop: for the row %s alone addop fills %d cells and registers %s, the model computes %d cells and %s; e.g. %s '
